@@ -30,21 +30,24 @@ func c18RuleSet(prefix string) c18Rules {
 
 func checkC18(c *Ctx) {
 	r, p := c.R, c.P
-	r.Explanation = "Decides structural necessary conditions of C18 on concurrency/dir.Dir.Write, from the SSA of today's source, comparing file-system calls by symbolic path terms (fields of Dir, constants, filepath.Join/concatenation/Sprintf, time.Now, pure in-module helpers inlined): " +
-		"(W1-order) there is exactly one os.Rename whose destination is Dir.target, its source is the path of an os.Symlink made in the same call, that link points at the version directory; the creation of the version directory, every write below it and the Symlink have their error tested and no path on which one of them failed (or was skipped) reaches the rename; nothing touches the version directory after the rename — including deferred calls: `defer os.X(…)` and deferred closure literals are modelled as running at every return that follows the defer statement, under the closure's own condition (tests of the named error result against nil, captured bool flags whose must-value at the return is tracked); a deferred mutation of the version directory that can run at a return reachable after the successful rename is a violation, one whose condition cannot be evaluated is UNDECIDED. Error values that travel through a variable cell (named/captured err) are chased to the call that produced them. " +
-		"(W1-complete) the files are written in a range loop over the map parameter, path = join(version dir, key) and content = value of the same entry, every iteration passes the success edge of the write before the back edge, and the rename is reached only through the loop's end. " +
-		"(W1-nil-published) every `return nil` is dominated by the success edge of the rename. " +
-		"(W1-prev) RemoveAll(*prev) exists, runs only after the successful rename and before prev is overwritten; every nil return has prev==nil-or-removed and prev = address of this call's version directory. " +
-		"(W2-paths) every os mutation in Write acts on a path that is classified (target only as Rename destination; base only MkdirAll; *prev only Remove/RemoveAll; version dir; temporary link), anything else is UNDECIDED. " +
+	r.Explanation = "Decides structural necessary conditions of C18 on concurrency/dir.Dir.Write. The analysis is shape-independent in three ways. (i) It runs on an interprocedural control-flow graph of Write in which every same-module callee that touches the file system or Dir's state (methods, functions, local closures, bound method values, thin wrappers) is expanded at its call site; the nil-ness of a callee's error result is carried back (a `return <call>` of unknown nil-ness is split into a nil and a non-nil continuation) and the caller's test of that result follows only the feasible branch, so steps written inline or in helpers are seen alike. (ii) Dir's fields are resolved by ROLE: string fields stored only into freshly constructed values are read as the term the constructor stored (over the exported Options.Target), the target is the path the constructor received, the previous-version field is the *string (or non-constructor string) field of Dir; unexported names are not used. (iii) File-system calls are compared by symbolic path terms (constants, filepath.Join / concatenation with the separator / Sprintf / strconv, time.Now with the identity of each evaluation, pure helpers inlined, values travelling through variable cells chased). " +
+		"(W1-order) there is exactly one os.Rename whose destination is the target, its source is the path of an os.Symlink made in the same call, that link points at the version directory (directly, or by base name from the same directory); the creation of the version directory, every write below it and the Symlink have their error tested and no path on which one of them failed (or was skipped) reaches the rename; nothing touches the version directory after the rename — including deferred calls: `defer os.X(…)`, deferred closure literals and deferred same-package functions are modelled as running at every return of their frame that follows the defer statement, under their own condition (tests of the named error result against nil — also through a *error parameter —, captured/pointed-to bool flags whose must-value at the return is tracked); a deferred mutation of the version directory that can run at a return reachable after the successful rename is a violation, one whose condition cannot be evaluated is UNDECIDED. " +
+		"(W1-complete) the files are written in a complete enumeration of the map parameter: a range loop over the map (value = range value or m[key]), or a complete index/range walk over a slice that provably holds exactly the map's keys (collected by an unconditional append in a complete range loop, or maps.Keys/slices.Collect/slices.Sorted; sorting allowed; a filtered collection or a walk starting after index 0 is a violation); path = join(version dir, key) and content = value of the same entry, every iteration passes the success edge of the write before the back edge, and the rename is reached only through the loop's end. " +
+		"(W1-nil-published) every return that yields a nil error is dominated by the success edge of the rename (named results, bare returns and returns of a callee's result included; a return whose nil-ness cannot be established makes a failing obligation UNDECIDED). " +
+		"(W1-prev) the removal of *prev exists, runs only after the successful rename and before prev is overwritten; every nil return has prev==nil-or-removed and prev = (address of) this call's version directory. " +
+		"(W2-paths) every os mutation in Write and its expanded callees acts on a path that is classified (target only as Rename destination; base only MkdirAll; *prev only Remove/RemoveAll; version dir; temporary link), anything else is UNDECIDED. " +
 		"(W2-fresh) the version directory name contains a per-call unique component (time.Now at nano/microsecond resolution or a temp/random name). " +
-		"(W2-frozen) Dir.target/base/targetDir are stored only by dir.New with base=filepath.Dir(T), targetDir=filepath.Base(T), target=T, and Dir.prev only by Write. " +
+		"(W2-frozen) the path fields of Dir are written only at construction; the previous-version field only by Write and the functions it calls. " +
 		"(W3-leftover) every create-type call that fails with EEXIST (Symlink/Link/Mkdir) on a path that is identical on every call is preceded on all paths by a removal of that path; if it is not, a may-dataflow follows the fact 'the creation may have failed because a leftover exists and the path was not re-created since' (dropped where the error is known nil, known not to be ErrExist via errors.Is/os.IsExist/IsNotExist, or on the success edge of a later creation of the same link): reaching the consuming rename with that fact is a VIOLATION (the stale link of the crashed call is published and nil returned), never reaching it without a re-creation is the 'file exists forever' VIOLATION, a successful re-creation discharges it; error handling that cannot be classified, or an os.Readlink comparison, is UNDECIDED. " +
-		"(S1, NOTE only) spiffe.fetchIdentityCertificate hands key, chain and anchors to one Write call in one map. " +
-		"NOT decided: the actual file-system states at each crash point, durability (no fsync is demanded), the atomicity of rename(2) and symlink semantics of the OS (assumed), concurrent Writes on one Dir or two Dirs on one target, version directories orphaned by a crash (the statement only asks for cleanup without crashes), relative target paths, clock steps backwards."
+		"(S1, NOTE only) crypto/spiffe hands key, chain and anchors to one Write call in one map. " +
+		"A call that matters and cannot be expanded (recursion, go statements, *os.File methods, os functions outside the model) makes every 'required step missing' finding UNDECIDED, never a VIOLATION. " +
+		"NOT decided: the actual file-system states at each crash point, durability (no fsync is demanded), the atomicity of rename(2) and symlink semantics of the OS (assumed), concurrent Writes on one Dir or two Dirs on one target, version directories orphaned by a crash (the statement only asks for cleanup without crashes), relative target paths, clock steps backwards, effects of dynamic calls (interface methods such as the logger, function values of unknown origin are assumed not to touch the target's directory)."
 	r.Assumptions = append(r.Assumptions,
 		"rename(2) replaces its destination atomically; os.Symlink/os.Link/os.Mkdir fail with EEXIST on an existing path; os.MkdirAll and os.WriteFile succeed on existing paths; os.RemoveAll succeeds on a missing path",
 		"Write is not called concurrently on one Dir (as in spiffe, which serialises it)",
-		"two Writes never obtain the same time.Now().UnixNano()/UnixMicro() value")
+		"two Writes never obtain the same time.Now().UnixNano()/UnixMicro() value",
+		"callers that receive (value, error) from a helper use the value only when the error is nil (the value term of such a helper ignores its error returns)",
+		"a + \"/\" + b names the same path as filepath.Join(a, b) (operands are clean paths / single names)")
 	R := c18RuleSet("C18.")
 	r.Rule(R.Order, "one rename over target, fed by the symlink of this call; mkdir(version), every write, symlink checked and never bypassed; version dir untouched after publish", 5)
 	r.Rule(R.Complete, "range over the file map: join(version,key) <- value, every iteration written, rename only after the loop's end", 2)
@@ -52,83 +55,74 @@ func checkC18(c *Ctx) {
 	r.Rule(R.Prev, "RemoveAll(*prev) after successful rename and before prev is overwritten; nil return => prev removed-or-nil and prev = this version", 4)
 	r.Rule(R.Paths, "every mutated path is target(rename dest only)/base(MkdirAll only)/*prev(remove only)/version dir/temporary link", 6)
 	r.Rule(R.Fresh, "version directory name unique per call", 1)
-	r.Rule("C18.W2-frozen", "Dir.target/base/targetDir written only by New (Dir(T)/Base(T)/T); prev only by Write", 4)
+	r.Rule("C18.W2-frozen", "the path fields of Dir are stored only into freshly constructed values (read as the constructor's term over Options.Target); the previous-version field only by Write and its callees", 2)
 	r.Rule(R.Leftover, "EEXIST-failing creation on a call-invariant path is preceded by its removal, or the link is provably created again after the failure; tolerating/ignoring EEXIST is a violation (stale link published)", 1)
-	r.Rule("C18.S1-spiffe", "(NOTE only) fetchIdentityCertificate: one Write call with one map literal", 1)
+	r.Rule("C18.S1-spiffe", "(NOTE only) crypto/spiffe: one Write call with one map literal", 1)
 
 	write := p.Func("concurrency/dir", "Dir.Write")
-	newFn := p.Func("concurrency/dir", "New")
 	dirT := p.Named("concurrency/dir", "Dir")
-	_ = dirT
-	tkey := p.ModPath + "/concurrency/dir.Dir"
+	tkey := namedKey(dirT)
 	fid := func(f string) string { return FieldID{tkey, f}.String() }
-	for _, f := range []string{"target", "base", "targetDir", "prev"} {
-		if !c18HasField(structOf(dirT), f) {
-			undecided("anchor field dir.Dir.%s no longer resolves", f)
-		}
-	}
+	// The names below are only hints for the fixture mode of the writer rules; on the repository the
+	// fields are resolved by role (c18ResolveRoles): construction-time path fields through what the
+	// constructor stores, prev as the *string field of Dir.
 	cfg := &c18Cfg{Target: fid("target"), Prev: fid("prev"), Base: fid("base"), TargetDir: fid("targetDir"),
 		Frozen: map[string]bool{}, Rules: R}
 
 	// ---- W2-frozen --------------------------------------------------------------
-	tt := newC18Terms(p)
-	stores := map[string][]*ssa.Store{}
-	for _, fn := range p.Funcs {
-		allInstrs(fn, func(in ssa.Instruction) {
-			st, ok := in.(*ssa.Store)
-			if !ok {
+	probe := *cfg
+	info := c18ResolveRoles(p, newC18Terms(p), write, &probe)
+	if info == nil {
+		r.Undecide("the fields of dir.Dir that hold the target path are not recognised: no string field of Dir is initialised by a constructor from Options.Target (layout of the writer's state not established)")
+	} else {
+		for _, f := range info.Fields {
+			r.OK("C18.W2-frozen", "concurrency/dir.Dir construction-time field = "+info.CtorTerm[f], p.Pos(instrPos(info.CtorPos[f])), "stored only into freshly constructed Dir values, as "+info.CtorTerm[f])
+		}
+		var nf []string
+		for f := range info.NotFrozen {
+			nf = append(nf, f)
+		}
+		sort.Strings(nf)
+		for _, f := range nf {
+			r.Note("W2-frozen: string field Dir.%s is not fixed at construction (%s): paths built from it are treated as varying", f, info.NotFrozen[f])
+		}
+		// prev: written only by Write and the functions it runs (and constructors)
+		inWrite := map[*ssa.Function]bool{}
+		var visit func(f *ssa.Function)
+		visit = func(f *ssa.Function) {
+			if f == nil || inWrite[f] {
 				return
 			}
-			fa, ok := st.Addr.(*ssa.FieldAddr)
-			if !ok {
-				return
+			inWrite[f] = true
+			for _, a := range f.AnonFuncs {
+				visit(a)
 			}
-			id := fieldIDOfAddr(fa)
-			if id.Type == tkey {
-				stores[id.Field] = append(stores[id.Field], st)
-			}
-		})
-	}
-	src := "F(" + FieldID{tkey[:len(tkey)-len("Dir")] + "Options", "Target"}.String() + ")"
-	wantNew := map[string]string{"target": src, "base": "Dir(" + src + ")", "targetDir": "Base(" + src + ")"}
-	for _, f := range []string{"target", "base", "targetDir"} {
-		construct := "concurrency/dir.Dir." + f + " set only by New"
-		ok, layout := true, true
+			allInstrs(f, func(in ssa.Instruction) {
+				if ci, ok := in.(ssa.CallInstruction); ok {
+					if t := staticCallee(ci); t != nil && p.InModule(t) {
+						visit(t)
+					}
+				}
+			})
+		}
+		visit(write)
+		prevName := strings.TrimPrefix(probe.Prev, FieldID{tkey, ""}.String())
+		stores := info.PrevStore[prevName]
 		where := ""
-		for _, st := range stores[f] {
-			if st.Parent() != newFn {
-				ok = false
+		for _, st := range stores {
+			if fa, ok := st.Addr.(*ssa.FieldAddr); ok && isFreshBase(fa.X) {
+				continue
+			}
+			if !inWrite[st.Parent()] {
 				where = FuncName(p, st.Parent())
-			} else if got := tt.Term(st.Val).String(); got != wantNew[f] {
-				layout = false
-				where = got
 			}
 		}
+		construct := "concurrency/dir.Dir previous-version field set only by Write"
 		switch {
-		case len(stores[f]) == 0:
-			r.Undecide("dir.New no longer initialises Dir.%s: layout assumption of the check not established", f)
-		case !ok:
-			r.Undecide("Dir.%s is also written by %s: the check treats it as fixed at construction", f, where)
-		case !layout:
-			r.Undecide("dir.New sets Dir.%s to %s (expected %s): layout assumption target = base/targetDir not established", f, where, wantNew[f])
-		default:
-			cfg.Frozen[fid(f)] = true
-			r.OK("C18.W2-frozen", construct, p.Pos(stores[f][0].Pos()), "stored only by New as "+wantNew[f])
-		}
-	}
-	{
-		ok := len(stores["prev"]) > 0
-		where := ""
-		for _, st := range stores["prev"] {
-			if st.Parent() != write {
-				ok = false
-				where = FuncName(p, st.Parent())
-			}
-		}
-		if !ok && where != "" {
-			r.Violation("C18.W2-frozen", "concurrency/dir.Dir.prev set only by Write", p.Pos(write.Pos()), "Dir.prev is overwritten by "+where+": Write's RemoveAll(*prev) may then delete a directory other than the superseded version (possibly the published one)")
-		} else if ok {
-			r.OK("C18.W2-frozen", "concurrency/dir.Dir.prev set only by Write", p.Pos(stores["prev"][0].Pos()), "stored only by Write")
+		case where != "":
+			r.Violation("C18.W2-frozen", construct, p.Pos(write.Pos()), "the field of Dir that remembers the previous version directory is overwritten by "+where+": Write's RemoveAll(*prev) may then delete a directory other than the superseded version (possibly the published one)")
+		case len(stores) > 0:
+			r.OK("C18.W2-frozen", construct, p.Pos(stores[0].Pos()), "stored only by Write (and the functions it calls)")
 		}
 		// (no store at all is reported by W1-prev)
 	}
@@ -181,45 +175,27 @@ func checkC18(c *Ctx) {
 	})
 }
 
-func c18HasField(st *types.Struct, name string) bool {
-	if st == nil {
-		return false
-	}
-	for i := 0; i < st.NumFields(); i++ {
-		if st.Field(i).Name() == name {
-			return true
-		}
-	}
-	return false
-}
-
-// c18Spiffe: NOTE-only agreement check of the one in-module user of Dir.Write.
+// c18Spiffe: NOTE-only agreement check of the in-module user of Dir.Write
+// (whichever function of crypto/spiffe calls it).
 func c18Spiffe(c *Ctx, write *ssa.Function) {
 	r, p := c.R, c.P
-	fetch := p.FuncOpt("crypto/spiffe", "SPIFFE.fetchIdentityCertificate")
-	if fetch == nil {
-		r.Note("S1: crypto/spiffe.SPIFFE.fetchIdentityCertificate no longer resolves; the spiffe use of dir.Write is not looked at")
-		r.Trivial("C18.S1-spiffe", "crypto/spiffe.SPIFFE.fetchIdentityCertificate", "-", "anchor absent (NOTE only)")
-		return
-	}
-	// all in-module callers of Write
-	var callers []string
+	construct := "crypto/spiffe -> dir.Dir.Write"
 	var calls []*ssa.Call
+	var callers []string
 	for _, fn := range p.Funcs {
 		allInstrs(fn, func(in ssa.Instruction) {
 			if ci, ok := in.(ssa.CallInstruction); ok && staticCallee(ci) == write {
 				callers = append(callers, FuncName(p, fn))
-				if call, ok := in.(*ssa.Call); ok && fn == fetch {
+				if call, ok := in.(*ssa.Call); ok && fn.Pkg != nil && fn.Pkg.Pkg.Path() == p.ModPath+"/crypto/spiffe" {
 					calls = append(calls, call)
 				}
 			}
 		})
 	}
 	sort.Strings(callers)
-	construct := "crypto/spiffe.SPIFFE.fetchIdentityCertificate -> dir.Dir.Write"
 	if len(calls) != 1 {
-		r.Note("S1: fetchIdentityCertificate calls dir.Write %d times (callers in module: %v): key, chain and anchors are no longer handed over as one set", len(calls), callers)
-		r.Trivial("C18.S1-spiffe", construct, p.Pos(fetch.Pos()), "NOTE only")
+		r.Note("S1: crypto/spiffe calls dir.Write at %d places (callers in module: %v): key, chain and anchors are not handed over as one set in one place", len(calls), callers)
+		r.Trivial("C18.S1-spiffe", construct, "-", "NOTE only")
 		return
 	}
 	call := calls[0]
@@ -241,7 +217,20 @@ func c18Spiffe(c *Ctx, write *ssa.Function) {
 		}
 	}
 	if len(keys) < 3 || inLoop {
-		r.Note("S1: the single dir.Write call of fetchIdentityCertificate is given %d constant file names %v (expected key, chain and anchors in one map literal; in a loop: %v)", len(keys), keys, inLoop)
+		r.Note("S1: the single dir.Write call of crypto/spiffe is given %d constant file names %v (expected key, chain and anchors in one map literal; in a loop: %v)", len(keys), keys, inLoop)
 	}
 	r.OK("C18.S1-spiffe", construct, p.Pos(call.Pos()), "one Write call with a map literal of "+strings.Join(keys, ",")+" (NOTE only)")
+}
+
+// c18HasField is also used by other properties' checks.
+func c18HasField(st *types.Struct, name string) bool {
+	if st == nil {
+		return false
+	}
+	for i := 0; i < st.NumFields(); i++ {
+		if st.Field(i).Name() == name {
+			return true
+		}
+	}
+	return false
 }
